@@ -174,6 +174,12 @@ def r3_order_and_multiplicity(ctx: Ctx) -> None:
     ctx.check(ok, "DataNode.__init__:copies-in-order", "self.data receives every element in order")
 
 
+def quoted_string_strip(ctx: Ctx) -> None:
+    pd = ctx.repo.func(PSTATES, "parse_directive_with_quoted_string")
+    r = returns_of(pd.node)
+    ctx.check(len(r) == 1 and unparse(r[0].value).endswith(".value[1:-1]"), "parse_directive_with_quoted_string", "strips exactly the two quote characters")
+
+
 def r4_text_and_binary(ctx: Ctx) -> None:
     repo = ctx.repo
     bt = repo.func(NODES, "AsciiNode.binary_text")
@@ -181,9 +187,7 @@ def r4_text_and_binary(ctx: Ctx) -> None:
     ok = len(rets) == 1 and isinstance(rets[0].value, ast.Call) and call_name(rets[0].value) == "self.text.encode" and \
         rets[0].value.args and const_str(rets[0].value.args[0]) in ("ascii", "us-ascii")
     ctx.check(bool(ok), "AsciiNode.binary_text", "the text's ASCII encoding")
-    pd = repo.func(PSTATES, "parse_directive_with_quoted_string")
-    r = returns_of(pd.node)
-    ctx.check(len(r) == 1 and unparse(r[0].value).endswith(".value[1:-1]"), "parse_directive_with_quoted_string", "strips exactly the two quote characters")
+    quoted_string_strip(ctx)
     init = repo.func(NODES, "BinaryNode.__init__")
     opens = calls_in(init.node, "open")
     mode = None
@@ -220,6 +224,14 @@ def r5_layout_agreement(ctx: Ctx) -> None:
         ctx.check(et == at, f"{name}:emit-vs-pc_after", f"emit() yields {et} bytes, pc_after() advances by {at}")
 
 
+def r6_address_advance(ctx: Ctx) -> None:
+    """`occupies exactly that many bytes in the address layout`: advancing an address by the directive's size is the address that
+    many bytes further, across any number of bank ends (the C04.R5 obligation; matters for large .incbin files)"""
+    from .c04 import r5_formula_normal_form
+
+    r5_formula_normal_form(ctx)
+
+
 def rb_binding_agreement(ctx: Ctx) -> None:
     from ..ownership import binding_agreement
 
@@ -233,4 +245,4 @@ def rm_no_process_lifetime_results(ctx: Ctx) -> None:
     state_rule(ctx)
 
 
-RULES = [r1_field_packing, r2_directive_chain, r3_order_and_multiplicity, r4_text_and_binary, r5_layout_agreement, rb_binding_agreement, rm_no_process_lifetime_results]
+RULES = [r1_field_packing, r2_directive_chain, r3_order_and_multiplicity, r4_text_and_binary, r5_layout_agreement, r6_address_advance, rb_binding_agreement, rm_no_process_lifetime_results]
